@@ -60,6 +60,11 @@ CHECKS.update({
          'An independent parser of the bundled .tl text computes constructor ids and field lists; for every supported constructor of lite_api.tl and ton_api.tl generated well-typed values (all flag combinations up to 6 bits, string/bytes lengths 0..12, 252..257, 1000, 70000, nested and polymorphic objects, vectors, # fields with bit 31) must serialise to exactly the reference bytes and the reference bytes must parse back to the value consuming all bytes. BlockId/BlockIdExt conversions and hashing laws are checked on generated ids.',
          'Trusts harness/ref/reftl.py (anchored on well-known constructor ids and the ids pinned in tests/test_tl.py), zlib.crc32. Excludes (listed in evidence) constructors with pseudo-types the generator does not implement and names declared differently in several bundled files.', '§6 C14'),
 })
+CHECKS.update({
+ 'C11': ('Hypothesis generation of trees, prune sets and proof mutations built by an independent cell-hash model; completeness oracle (honest proof accepted, extracted state hash = committed hash) + soundness oracle by construction (mutant invalid iff a committed hash differs)',
+         'Trees (ordinary and exotic, normalised to level 0), block-shaped roots with a Merkle update over pruned/full/partly pruned states, and hand-encoded ShardStateUnsplit cells with account dictionaries are pruned by the reference model (create_pruned_branch at the right Merkle depth) into proofs that must be accepted by check_proof / check_block_header_proof / check_account_proof; every mutant whose committed level-0 hash, stored root hash or cell kind differs (bit flips, reference drop/swap/duplicate/retarget, substituted pruned hashes and depths, level-lifted pruned branches with attacker-chosen lower hashes, wrong expected hash, forged state below a lifted Merkle-update child, claimed account state that is a pruned branch / another account / one bit off, other address, wrong root count) must raise, and a mutant that keeps the block hash must not change the extracted state hash.',
+         'Trusts harness/ref/refcell.py (validated in C01/C02), refdict/refbits writers, sha256 collision freedom. Rejection of a changed depth field of the proof root and of internally inconsistent exotic cells whose committed hash is intact is not asserted.', '§6 C11'),
+})
 NOT_YET = {}
 
 def main():
